@@ -23,7 +23,8 @@ need 2^32767 items to overflow.  Items are `Nat` with the usual order (harness: 
 -/
 namespace YgmVerif.DSet
 
-abbrev Item := Nat
+/-- items are natural numbers (`scoped notation`, so that `omega` sees `Nat`) -/
+scoped notation "Item" => Nat
 
 structure Entry where
   rank : Int
@@ -49,10 +50,12 @@ structure State where
   mergeLog : List (Bool × Item × Item)
   /-- ghost: unions issued so far, newest first -/
   issued : List (Item × Item)
+  /-- ghost: how many of them were plain `async_union`s (no callback) -/
+  plainIssued : Nat
   aborted : Bool
 
 def init : State :=
-  { ent := fun x => ⟨0, x⟩, dom := [], msgs := [], cbs := [], mergeLog := [], issued := [], aborted := false }
+  { ent := fun x => ⟨0, x⟩, dom := [], msgs := [], cbs := [], mergeLog := [], issued := [], plainIssued := 0, aborted := false }
 
 def rank (s : State) (x : Item) : Int := (s.ent x).rank
 def parent (s : State) (x : Item) : Item := (s.ent x).parent
@@ -149,7 +152,9 @@ def deliver (s : State) (i : Nat) : State :=
 
 /-- `async_union(a, b)` (`ex = false`) / `async_union_and_execute(a, b, fn)` (`ex = true`) -/
 def issue (s : State) (ex : Bool) (a b : Item) : State :=
-  { send s (.walk ex a a b b (-1) a b) with issued := (a, b) :: s.issued }
+  { send s (.walk ex a a b b (-1) a b) with
+    issued := (a, b) :: s.issued
+    plainIssued := if ex then s.plainIssued else s.plainIssued + 1 }
 
 /-! ### lookups -/
 
